@@ -30,6 +30,8 @@ type config struct {
 	QuickSkip   []string          `json:"quick_skip"` // harnesses only run in thorough
 	CrossCheck  bool              `json:"cross_check"`
 	NoWitness   bool              `json:"no_witness"`
+	Shared      []string          `json:"shared"`
+	Solver      string            `json:"solver"` // primary solver: z3 (default) or cvc5
 }
 
 type knownFinding struct {
@@ -77,6 +79,7 @@ var (
 	flagReplay   = flag.String("replay", "", "replay a violation file natively")
 	flagNoNative = flag.Bool("no-native", false, "skip native replay / witness validation (debugging only; never exits 0 with violations)")
 	flagSolverLog = flag.String("solver-log", "", "write solver input of worker 0 here")
+	flagWall     = flag.Int("wall", 0, "override wall budget per harness (s)")
 	flagOne      = flag.String("prefix", "", "run a single path with this decision prefix (comma separated), verbose")
 )
 
@@ -133,6 +136,9 @@ func realMain() int {
 		b = mergeBudgets(b, cfg.Quick)
 	}
 
+	if *flagWall > 0 {
+		b.WallS = *flagWall
+	}
 	if *flagReplay != "" {
 		return replayFile(prop, harnessDir, rtDir, *flagReplay)
 	}
@@ -150,7 +156,7 @@ func realMain() int {
 	}
 
 	tl := time.Now()
-	ld, err := loadProgram(*flagRepo, harnessDir, rtDir, tags)
+	ld, err := loadProgram(*flagRepo, harnessDir, rtDir, tags, cfg.Shared)
 	if err != nil {
 		fmt.Fprintln(os.Stderr, "LOAD FAILED:", err)
 		writeEvidenceFailure(evPath, prop, tier, seed, cfg, "load failed: "+err.Error(), time.Since(t0).Seconds())
@@ -187,8 +193,17 @@ func realMain() int {
 		go func(i int) {
 			w := &worker{id: i + 1, in: newInterpreter(ld)}
 			w.in.trace = *flagTrace
-			s, err := newSolver("z3", b.QueryMs)
+			w.in.thorough = tier == "thorough"
+			primary, secondary := "z3", "cvc5"
+			if cfg.Solver == "cvc5" {
+				primary, secondary = "cvc5", "z3"
+			}
+			s, err := newSolver(primary, b.QueryMs)
 			if err != nil {
+				errs <- err
+				return
+			}
+			if s.alt, err = newSolver(secondary, b.QueryMs); err != nil {
 				errs <- err
 				return
 			}
